@@ -1078,6 +1078,24 @@ Proof.
 Qed.
 
 
+(* ---- check_left/right_canonical test every site except the centre the guards of ensure_* pair them with ---- *)
+Section Checks.
+Local Open Scope Z_scope.
+Lemma in_zup a n i : In i (zup a n) <-> a <= i < a + Z.of_nat n.
+Proof.
+  unfold zup. rewrite in_map_iff. split.
+  - intros [k [E Hk]]. apply in_seq in Hk. lia.
+  - intros H. exists (Z.to_nat (i - a)). split; [lia|]. apply in_seq. lia.
+Qed.
+(* ensure_right_canonical returns the object untouched only if to_right, qnidx = 0 and check_right_canonical():
+   the latter must test every site but the centre 0 *)
+Lemma check_right_covers s i : In i (check_right_sites s) <-> (0 <= i <= site_num s - 1 /\ i <> 0).
+Proof. unfold check_right_sites. rewrite py_range_up, in_zup. lia. Qed.
+(* ensure_left_canonical: not to_right, qnidx = site_num - 1, check_left_canonical(): every site but the last *)
+Lemma check_left_covers s i : In i (check_left_sites s) <-> (0 <= i <= site_num s - 1 /\ i <> site_num s - 1).
+Proof. unfold check_left_sites. rewrite py_range_up, in_zup. lia. Qed.
+End Checks.
+
 (* ---- variational compression: the convergence test must see a snapshot of the previous sweep ---- *)
 (* generated: variational_old prev cur = the operand `mps_old` of `mps.distance(mps_old)`.  With
    `mps_old = mps.copy()` it is the previous sweep's state; with an alias (`mps_old = mps`) it is the current
